@@ -2,15 +2,17 @@
 
 Theorems: coq/C13/Properties_C13.v (first-arm law of the match loop, whole-name comparison, no-arm error,
 payload channel round-trip, transport invariants over arbitrary step lists, sequences of match functions
-(history freedom), ? chains of any length, try/checked classification; the defects of the pinned code as
-`_refuted` witnesses).
-Tie: four families of skeleton programs - (A) a value is constructed, transported (declaration from
+(history freedom), ? chains of any length, try/checked classification, freshness of the Variable behind Ok, last-write-wins
+for re-assignment, history freedom of sequences; the defects of the pinned code as `_refuted` witnesses).
+Tie: six families of skeleton programs - (A) a value is constructed, transported (declaration from
 variable/call, assignment, parameter passing, return) and consumed by match / .variant / .value;
 (M) several values sent through match statements packaged as functions (void / returning from the arm /
 expression-bodied arms / in a loop / nested / inline), variant names with prefix, suffix and case relations,
 names shared by two enums; (Q) chains of functions propagating with `?` applied to the call or to a variable;
-(T) core expressions - also with the failing operation inside a called function - under try/checked in six
-statement contexts - are printed as Cb programs and run on the real `main`; stdout transcript and error class must
+(T) core expressions - integer-valued and string-valued, also with the failing operation inside a called function - under
+try/checked in six statement contexts; (R) ONE variable / struct member assigned again and again with values of changing
+variant and payload kind; (S) several A/Q/T programs as functions of ONE program, called in any order with fresh operands
+(state carried between evaluations) - are printed as Cb programs and run on the real `main`; stdout transcript and error class must
 equal the extracted Mech model for EVERY program (conforming or not); Mech vs Spec classifies.
 classify_runtime_error/build_result_err are additionally compared byte for byte on random messages
 through a leaf driver that includes the repository's error_handling.cpp.
@@ -39,19 +41,30 @@ META = {
             "on the fragment that avoids the recorded defects every transport (declaration, assignment, argument, return), every "
             "`?` chain of any length (all five contexts incl. the expression statement) and every `return try e` / `R r = try e;` "
             "equals the property's own reading (Spec) for all values, step lists and link lists; integer payloads of any size are "
-            "bound unchanged and modulo by zero is classed as division by zero (repairs b144e56, d2267e2, 982c54e, 4ea336a mirrored); the defects of the pinned code are `_refuted` witnesses (known findings). The model is tied to the "
+            "bound unchanged and modulo by zero is classed as division by zero (repairs b144e56, d2267e2, 982c54e, 4ea336a mirrored); "
+            "try/checked on string-valued operands (literals, parameters, concatenation, string-array elements, the same inside callees) yields Ok with "
+            "exactly that string; build_result_ok is correct because - and only because - it starts from a fresh Variable (over a kept Variable an integer "
+            "Ok is read back correctly iff the kept string channel is empty); a variable or struct member assigned again and again holds exactly the "
+            "last value whatever it held before; a program made of several construct/transport/match, `?`-chain and try/checked parts called in any "
+            "order with fresh operands prints, call by call, what each part prints on its own (nothing is carried between evaluations); "
+            "the defects of the pinned code are `_refuted` witnesses (known findings). The model is tied to the "
             "code on every run: exhaustive arm orders/wildcards for 1-5 variants, every ordered pair of 18 sets of related variant names "
             "(prefix, suffix, infix, case, Option/Result's own names, one-letter, digits, underscores) under 5 arm lists with rotating binding form / "
             "binding-name scheme / arm-body form, all arm orders for 3 name sets per seed, match suites over every style, user enums whose type name "
             "is near the Result/Option prefix rule, `?` on the call and on a variable, failing operations inside called functions under try/checked, "
             "all short transport sequences, all `?` chains of "
             "1-5 links with the failing link at every position and every context, all small core expressions under try/checked, "
-            "boundary payloads, plus random deeper cases, are printed as Cb programs and run on the real binary; transcript and "
+            "boundary payloads, string-valued operands of try/checked, every variant sequence of length <= 3 assigned to one variable / struct member "
+            "(6 types, 5 ways of assignment), every ordered pair of 38 producer classes (try/checked int/string ok/err, ? chains, constructors of "
+            "Result/Option/user/generic enums through declaration, call, parameter, return) as ONE program calling x, y, x, one try site / one ? chain "
+            "called 6-8 times with alternating outcomes, plus random deeper cases, are printed as Cb programs and run on the real binary; transcript and "
             "error class must equal the extracted model for every program, including the defect shapes; classify_runtime_error "
             "is compared on random messages through a leaf driver.",
     "note": "Trusted: Coq kernel (vm_compute for the refutation witnesses), no axioms (Print Assumptions: closed); extraction via "
             "ExtrOcamlBasic+ExtrOcamlString; the model is hand-written and tied by differential testing only; the Python printer "
             "of skeletons to Cb text. Not modelled: struct/enum-typed payloads (associated_value), await?, member?, "
+            "enum values in struct members beyond `bx.e = <variable>; T x = bx.e;` (three recorded findings), string expressions other than variables/literals as "
+            "arguments of string parameters are rejected by the interpreter (modelled as the TypeCastError they raise), "
             "`?` inside println arguments and call arguments and binding-name reuse across matches of different payload kinds / binding names equal "
             "to a live variable (recorded as findings by fixed programs), T::V() with empty parentheses, try/checked inside larger expressions, "
             "x.value on a payload-less variant.",
@@ -182,68 +195,73 @@ def arm_text(a, i, kind, bn, body, block_fmt, expr_fmt, extra="", suffix=""):
     return "%s => { %s%s }" % (pat, block_fmt % ("" if b is None else ", " + b), extra)
 
 
-def cb_a(c):
+def cb_a(c, k=None):
+    """k = None: a whole program. k = item number: the same statements as functions of a sequence program (family S) - every
+    function name gets the suffix _k, `main` becomes `void item_k()`, the enum declaration is left to the caller."""
     t = c["type"]
     tn = type_name(t)
     vs = t["variants"]
     out = []
-    out += enum_decl(t)
+    x = "" if k is None else "_%d" % k
+    if k is None:
+        out += enum_decl(t)
     vi, pay = c["val"]
     direct = c["final"] in ("mk", "mkv", "cons")
-    out.append("%s idf(%s x) { return x; }" % (tn, tn))
-    out.append("%s mk() { return %s; }" % (tn, cons(tn, vs[vi][0], pay)))
-    out.append("%s mkv() { %s t = %s; return t; }" % (tn, tn, cons(tn, vs[vi][0], pay)))
+    out.append("%s idf%s(%s x) { return x; }" % (tn, x, tn))
+    out.append("%s mk%s() { return %s; }" % (tn, x, cons(tn, vs[vi][0], pay)))
+    out.append("%s mkv%s() { %s t = %s; return t; }" % (tn, x, tn, cons(tn, vs[vi][0], pay)))
     bn, body = c.get("bn", 0), c.get("body", 0)
     if body:
-        out.append('void shw(int i, long x) { println("arm", i, x); }')
-        out.append('void shs(int i, string x) { println("arm", i, x); }')
-        out.append('void shn(int i) { println("arm", i); }')
+        out.append('void shw%s(int i, long x) { println("arm", i, x); }' % x)
+        out.append('void shs%s(int i, string x) { println("arm", i, x); }' % x)
+        out.append('void shn%s(int i) { println("arm", i); }' % x)
     arms = []
     for i, a in enumerate(c["arms"]):
         arms.append(arm_text(a, i, kind_in(t, a[1]) if a[0] == "v" else None, bn, body,
-                             'println("arm %d"%s);' % (i, "%s"), "sh%s(%d%s)" % ("%s", i, "%s")))
+                             'println("arm %d"%s);' % (i, "%s"), "sh%s%s(%d%s)" % ("%s", x, i, "%s"),
+                             suffix="" if k is None else "q%d" % k))
     funcs, cur, n, hn = [], [], 0, 0
-    hdr = "void main() {"
+    hdr = "void main() {" if k is None else "void item_%d() {" % k
     if not direct:
         if c["src"] == "cons":
             cur.append("%s v0 = %s;" % (tn, cons(tn, vs[vi][0], pay)))
         elif c["src"] == "call":
-            cur.append("%s v0 = mk();" % tn)
+            cur.append("%s v0 = mk%s();" % (tn, x))
         else:
-            cur.append("%s v0 = mkv();" % tn)
+            cur.append("%s v0 = mkv%s();" % (tn, x))
         for s in c["steps"]:
-            k = s[0]
-            if k == "dv":
+            sk = s[0]
+            if sk == "dv":
                 cur.append("%s v%d = v%d;" % (tn, n + 1, n)); n += 1
-            elif k == "dc":
-                cur.append("%s v%d = idf(v%d);" % (tn, n + 1, n)); n += 1
-            elif k == "av":
+            elif sk == "dc":
+                cur.append("%s v%d = idf%s(v%d);" % (tn, n + 1, x, n)); n += 1
+            elif sk == "av":
                 cur.append("%s v%d = %s;" % (tn, n + 1, cons(tn, vs[s[1][0]][0], s[1][1])))
                 cur.append("v%d = v%d;" % (n + 1, n)); n += 1
-            elif k == "ac":
+            elif sk == "ac":
                 cur.append("%s v%d = %s;" % (tn, n + 1, cons(tn, vs[s[1][0]][0], s[1][1])))
-                cur.append("v%d = idf(v%d);" % (n + 1, n)); n += 1
-            elif k == "as":
+                cur.append("v%d = idf%s(v%d);" % (n + 1, x, n)); n += 1
+            elif sk == "as":
                 cur.append("v%d = %s;" % (n, cons(tn, vs[s[1][0]][0], s[1][1])))
-            elif k == "pa":
+            elif sk == "pa":
                 hn += 1
-                cur.append("h%d(v%d);" % (hn, n))
+                cur.append("h%d%s(v%d);" % (hn, x, n))
                 cur.append('println("back %d");' % hn)
-                funcs.append([hdr] + ["    " + x for x in cur] + ["}"])
-                hdr = "void h%d(%s v%d) {" % (hn, tn, n + 1)
+                funcs.append([hdr] + ["    " + l for l in cur] + ["}"])
+                hdr = "void h%d%s(%s v%d) {" % (hn, x, tn, n + 1)
                 cur = []
                 n += 1
     f = c["final"]
     if f in ("obs", "val"):
         cur.append("println(v%d.%s);" % (n, "variant" if f == "obs" else "value"))
     else:
-        scr = {"var": "v%d" % n, "call": "idf(v%d)" % n, "mk": "mk()", "mkv": "mkv()",
+        scr = {"var": "v%d" % n, "call": "idf%s(v%d)" % (x, n), "mk": "mk%s()" % x, "mkv": "mkv%s()" % x,
                "cons": cons(tn, vs[vi][0], pay)}[f]
         cur.append("match (%s) {" % scr)
         cur += ["    " + a for a in arms]
         cur.append("}")
     cur.append('println("after");')
-    funcs.append([hdr] + ["    " + x for x in cur] + ["}"])
+    funcs.append([hdr] + ["    " + l for l in cur] + ["}"])
     for fn in reversed(funcs):
         out += fn
     return "\n".join(out) + "\n"
@@ -377,9 +395,11 @@ def line_q(c):
                       ",".join("%s:%s%s" % (l[0], pl_ser(l[1]), ":v" if len(l) > 2 and l[2] == "v" else "") for l in c["links"]) or "-"])
 
 
-def cb_q(c):
+def cb_q(c, k=None):
+    """k = item number: functions f<i>_k and `void item_k(int sel)` instead of main (family S)."""
     strchain = c["ok"][0] == "str"
     T = "string" if strchain else "long"
+    x = "" if k is None else "_%d" % k
     if c["kind"] == "R":
         R = "Result<%s, %s>" % (T, c.get("ekind", "string"))
         okv, errv = "Ok", "Err"
@@ -397,9 +417,9 @@ def cb_q(c):
         if i == n:
             b.append("return %s;" % cons(R, okv, c["ok"]))
         else:
-            call = "f%d(x)?" % (i + 1)
+            call = "f%d%s(x)?" % (i + 1, x)
             if opvar:       # ? applied to a variable declared from the call
-                b.append("%s t = f%d(x);" % (R, i + 1))
+                b.append("%s t = f%d%s(x);" % (R, i + 1, x))
                 call = "t?"
             if ctx == "decl":
                 b += ["%s v = %s;" % (T, call), 'println("post", %d, v);' % i, "return %s::%s(v);" % (R, okv)]
@@ -412,17 +432,23 @@ def cb_q(c):
                 b += ["long v = 0 + (%s);" % call, 'println("post", %d, v);' % i, "return %s::%s(v);" % (R, okv)]
             else:
                 b += ["%s;" % call, 'println("post", %d);' % i, "return %s::%s(100);" % (R, okv)]
-        out.append("%s f%d(int x) {" % (R, i))
-        out += ["    " + x for x in b]
+        out.append("%s f%d%s(int x) {" % (R, i, x))
+        out += ["    " + l for l in b]
         out.append("}")
-    out.append("void main() {")
+    bs = "" if k is None else "q%d" % k
+    if k is None:
+        out.append("void main() {")
+        arg = str(c["sel"])
+    else:
+        out.append("void item_%d(int sel) {" % k)
+        arg = "sel"
     if n:
-        out.append("    match (f1(%d)) {" % c["sel"])
+        out.append("    match (f1%s(%s)) {" % (x, arg))
         if c["kind"] == "R":
-            out.append('        Ok(b0) => { println("arm 0", b0); }')
-            out.append('        Err(b1) => { println("arm 1", b1); }')
+            out.append('        Ok(b0%s) => { println("arm 0", b0%s); }' % (bs, bs))
+            out.append('        Err(b1%s) => { println("arm 1", b1%s); }' % (bs, bs))
         else:
-            out.append('        Some(b0) => { println("arm 0", b0); }')
+            out.append('        Some(b0%s) => { println("arm 0", b0%s); }' % (bs, bs))
             out.append('        None => { println("arm 1"); }')
         out.append("    }")
     out.append('    println("after");')
@@ -431,14 +457,25 @@ def cb_q(c):
 
 
 # ------------------------------------------------------------------ family T
-# expr: ["A"] ["B"] ["L",int] ["D0"] ["D1"] ["I",e] [op,x,y] with op in + - * / %
+# expr: ["A"] ["B"] ["L",int] ["D0"] ["D1"] ["I",e] [op,x,y] with op in + - * / %, ["DV",x,y] ["MD",x,y] ["AT",i] (the operation in a callee)
+# string-valued: ["SL",text] ["SA"] ["SB"] ["SC",x,y] (x + y) ["SK",x,y] cat(x, y) ["SI",i] names[i] ["SN",i] nm(i)
+S_TAGS = ("SL", "SA", "SB", "SC", "SK", "SI", "SN")
+RTS = "Result<string, RuntimeError>"
+
+
+def is_sexpr(e):
+    return e[0] in S_TAGS
+
+
 def ex_ser(e):
     k = e[0]
-    if k in ("A", "B", "D0", "D1"):
+    if k in ("A", "B", "D0", "D1", "SA", "SB"):
         return k
     if k == "L":
         return "L%d" % e[1]
-    if k in ("I", "AT"):
+    if k == "SL":
+        return "SL" + hx(e[1])
+    if k in ("I", "AT", "SI", "SN"):
         return k + " " + ex_ser(e[1])
     return "%s %s %s" % (k, ex_ser(e[1]), ex_ser(e[2]))
 
@@ -461,28 +498,54 @@ def ex_cb(e):
         return "at(%s)" % ex_cb(e[1])
     if k in ("DV", "MD"):
         return "%s(%s, %s)" % (k.lower(), ex_cb(e[1]), ex_cb(e[2]))
+    if k == "SL":
+        return '"%s"' % e[1]
+    if k == "SA":
+        return "sa"
+    if k == "SB":
+        return "sb"
+    if k == "SI":
+        return "names[%s]" % ex_cb(e[1])
+    if k == "SN":
+        return "nm(%s)" % ex_cb(e[1])
+    if k == "SK":
+        return "cat(%s, %s)" % (ex_cb(e[1]), ex_cb(e[2]))
+    if k == "SC":
+        return "(%s + %s)" % (ex_cb(e[1]), ex_cb(e[2]))
     return "(%s %s %s)" % (ex_cb(e[1]), k, ex_cb(e[2]))
 
 
 def ex_atom(e):
-    return e[0] in ("A", "B", "L", "I", "AT", "DV", "MD")
+    return e[0] in ("A", "B", "L", "I", "AT", "DV", "MD", "SL", "SA", "SB", "SI", "SN", "SK")
 
 
 def ex_has_call(e):
-    return e[0] in ("AT", "DV", "MD") or any(ex_has_call(x) for x in e[1:] if isinstance(x, list))
+    return e[0] in ("AT", "DV", "MD", "SN", "SK") or any(ex_has_call(x) for x in e[1:] if isinstance(x, list))
 
 
 T_HELPERS = ["long dv(long p, long q) { int u = 3; return p / q; }", "long md(long p, long q) { return p % q; }",
-             "long at(long i) { int[3] t; t[0] = 5; t[1] = 15; t[2] = 25; return t[i]; }"]
+             "long at(long i) { int[3] t; t[0] = 5; t[1] = 15; t[2] = 25; return t[i]; }",
+             'string nm(long i) { string[3] t = ["ann", "bob", "cy"]; return t[i]; }',
+             "string cat(string p, string q) { return p + q; }"]
+
+
+def t_strs(c):
+    return c.get("sa", "foo"), c.get("sb", "bar")
 
 
 def line_t(c):
-    return "\t".join(["T", "1" if c["checked"] else "0", c["ctx"], str(c["a"]), str(c["b"]), ex_ser(c["expr"])])
+    sa, sb = t_strs(c)
+    return "\t".join(["T", "1" if c["checked"] else "0", c["ctx"], str(c["a"]), str(c["b"]), hx(sa), hx(sb), ex_ser(c["expr"])])
 
 
-def cb_t(c):
+def cb_t(c, k=None):
+    """k = item number: g_k and `void item_k(int a, int b[, string sa, string sb])` instead of main; the helper functions
+    are left to the caller (family S)."""
     kw = "checked" if c["checked"] else "try"
     e = c["expr"]
+    st = is_sexpr(e)
+    x = "" if k is None else "_%d" % k
+    R = RTS if st else RT
     if e[0] in ("D0", "D1"):
         te = "%s %s" % (kw, "*p" if e[0] == "D0" else "*np")
     elif ex_atom(e) and not (e[0] == "L" and e[1] < 0):
@@ -490,48 +553,92 @@ def cb_t(c):
     else:
         te = "%s %s" % (kw, ex_cb(e) if ex_cb(e).startswith("(") else "(" + ex_cb(e) + ")")
     setup = ["int[3] arr; arr[0] = 5; arr[1] = 15; arr[2] = 25;", "int x = 4; int* p = &x; int* np = nullptr;"]
-    arms = ["match (%s) {", '    Ok(b0) => { println("arm 0", b0); }', '    Err(b1) => { println("arm 1", b1); }', "}"]
-    out = list(T_HELPERS) if ex_has_call(e) else []
+    if st:
+        setup.append('string[3] names = ["ann", "bob", "cy"];')
+    bs = "" if k is None else "q%d" % k
+    arms = ["match (%s) {", '    Ok(b0%s) => { println("arm 0", b0%s); }' % (bs, bs),
+            '    Err(b1%s) => { println("arm 1", b1%s); }' % (bs, bs), "}"]
+    out = list(T_HELPERS) if (ex_has_call(e) and k is None) else []
     ctx = c["ctx"]
+    sa, sb = t_strs(c)
+    params = "int a, int b, string sa, string sb" if st else "int a, int b"
+    pnames = "a, b, sa, sb" if st else "a, b"
     A, B = int_lit(c["a"]), int_lit(c["b"])
+    largs = "%s, %s" % (A, B) + (', "%s", "%s"' % (sa, sb) if st else "")
     if ctx in ("ret", "decl"):
-        out.append("%s g(int a, int b) {" % RT)
+        out.append("%s g%s(%s) {" % (R, x, params))
         out += ["    " + s for s in setup]
         out.append('    println("g1");')
         if ctx == "ret":
             out.append("    return %s;" % te)
         else:
-            out += ["    %s r = %s;" % (RT, te), '    println("g2");', "    return r;"]
+            out += ["    %s r = %s;" % (R, te), '    println("g2");', "    return r;"]
         out.append("}")
-        out.append("void main() {")
-        out += ["    " + (a % ("g(%s, %s)" % (A, B)) if "%s" in a else a) for a in arms]
+        if k is None:
+            out.append("void main() {")
+            call = "g(%s)" % largs
+        else:
+            out.append("void item_%d(%s) {" % (k, params))
+            call = "g%s(%s)" % (x, pnames)
+        out += ["    " + (a % call if "%s" in a else a) for a in arms]
         out += ['    println("after");', "}"]
     elif ctx in ("void", "asg"):
-        out.append("void g(int a, int b) {")
+        out.append("void g%s(%s) {" % (x, params))
         out += ["    " + s for s in setup]
         if ctx == "void":
-            out += ['    println("g1");', "    %s r = %s;" % (RT, te), '    println("g2");']
+            out += ['    println("g1");', "    %s r = %s;" % (R, te), '    println("g2");']
         else:
-            out += ["    %s r = %s::Ok(0);" % (RT, RT), '    println("g1");', "    r = %s;" % te, '    println("g2");']
+            out += ["    %s r = %s::Ok(%s);" % (R, R, '"z"' if st else "0"), '    println("g1");', "    r = %s;" % te, '    println("g2");']
         out += ["    " + (a % "r" if "%s" in a else a) for a in arms]
         out.append("}")
-        out += ["void main() {", "    g(%s, %s);" % (A, B), '    println("after");', "}"]
+        if k is None:
+            out += ["void main() {", "    g(%s);" % largs, '    println("after");', "}"]
+        else:
+            out += ["void item_%d(%s) {" % (k, params), "    g%s(%s);" % (x, pnames), '    println("after");', "}"]
     else:
-        out.append("void main() {")
-        out += ["    int a = %s; int b = %s;" % (A, B)]
+        if k is None:
+            out.append("void main() {")
+            out += ["    int a = %s; int b = %s;" % (A, B)]
+            if st:
+                out += ['    string sa = "%s"; string sb = "%s";' % (sa, sb)]
+        else:
+            out.append("void item_%d(%s) {" % (k, params))
         out += ["    " + s for s in setup]
         if ctx == "main":
-            out += ['    println("g1");', "    %s r = %s;" % (RT, te), '    println("g2");']
+            out += ['    println("g1");', "    %s r = %s;" % (R, te), '    println("g2");']
         else:
-            out += ["    %s r = %s::Ok(0);" % (RT, RT), '    println("g1");', "    r = %s;" % te, '    println("g2");']
+            out += ["    %s r = %s::Ok(%s);" % (R, R, '"z"' if st else "0"), '    println("g1");', "    r = %s;" % te, '    println("g2");']
         out += ["    " + (a % "r" if "%s" in a else a) for a in arms]
         out += ['    println("after");', "}"]
     return "\n".join(out) + "\n"
 
 
-def py_eval3(e, a, b):
+def py_eval3(e, a, b, sa="foo", sb="bar"):
     """(value or None, largest intermediate magnitude, error kind or None) - generator-side guard only."""
     k = e[0]
+    if k == "SL":
+        return e[1], 0, None
+    if k == "SA":
+        return sa, 0, None
+    if k == "SB":
+        return sb, 0, None
+    if k in ("SI", "SN"):
+        v, m, err = py_eval3(e[1], a, b)
+        if v is None:
+            return None, m, err
+        if v < 0 or v > 2:
+            return None, m, "bounds"
+        return ["ann", "bob", "cy"][v], m, None
+    if k == "SK" and not all(x[0] in ("SL", "SA", "SB") for x in e[1:]):
+        return None, 0, "argtype"        # rejected before anything is evaluated
+    if k in ("SC", "SK"):
+        u, mu, err = py_eval3(e[1], a, b, sa, sb)
+        if u is None:
+            return None, mu, err
+        v, mv, err = py_eval3(e[2], a, b, sa, sb)
+        if v is None:
+            return None, max(mu, mv), err
+        return u + v, max(mu, mv), None
     if k == "A":
         return a, abs(a), None
     if k == "B":
@@ -577,13 +684,150 @@ def py_eval(e, a, b):
     return v, m
 
 
+# ------------------------------------------------------------------ family R (one variable assigned again and again)
+# case: {"fam":"R","type":t,"init":[vi,payload],"steps":[{"val":[vi,payload],"how":"var|call|mkv|mk","fn":bool}],"arms":[...]}
+def line_r(c):
+    t = c["type"]
+    vs = t["variants"]
+
+    def cv(x):
+        return "%s:%s" % (hx(vs[x[0]][0]), pl_ser(x[1]))
+    steps = ["%s:%d:%s" % (st["how"], 1 if st.get("fn") else 0, cv(st["val"])) for st in c["steps"]]
+    return "\t".join(["R", hx(type_name(t)), cv(c["init"]), ",".join(steps) or "-", arms_ser(c["arms"])])
+
+
+def cb_r(c):
+    t = c["type"]
+    tn = type_name(t)
+    vs = t["variants"]
+    out = list(enum_decl(t))
+    out.append("%s idf(%s x) { return x; }" % (tn, tn))
+    for k, st in enumerate(c["steps"]):
+        e = cons(tn, vs[st["val"][0]][0], st["val"][1])
+        if st["how"] == "mkv":
+            out.append("%s mkv_%d() { %s t = %s; return t; }" % (tn, k, tn, e))
+        elif st["how"] == "mk":
+            out.append("%s mk_%d() { return %s; }" % (tn, k, e))
+
+    def match_lines(scr, kexpr):
+        lines = ["match (%s) {" % scr]
+        for i, a in enumerate(c["arms"]):
+            lines.append("    " + arm_text(a, i, kind_in(t, a[1]) if a[0] == "v" else None, 1, 0,
+                                           'println("m", %s, "arm", %d%s);' % (kexpr, i, "%s"), ""))
+        lines.append("}")
+        return lines
+    out.append("void show(%s x, int k) {" % tn)
+    out += ["    " + l for l in match_lines("x", "k")]
+    out.append("}")
+    fld = any(st["how"] == "fld" for st in c["steps"])
+    if fld:
+        out.insert(len(enum_decl(t)), "struct Box { %s e; int n; };" % tn)
+    out.append("void main() {")
+    if fld:
+        out.append("    Box bx;")
+    out.append("    %s w = %s;" % (tn, cons(tn, vs[c["init"][0]][0], c["init"][1])))
+    for k, st in enumerate(c["steps"]):
+        e = cons(tn, vs[st["val"][0]][0], st["val"][1])
+        if st["how"] == "var":
+            out += ["    %s u%d = %s;" % (tn, k, e), "    w = u%d;" % k]
+        elif st["how"] == "call":
+            out += ["    %s u%d = %s;" % (tn, k, e), "    w = idf(u%d);" % k]
+        elif st["how"] == "mkv":
+            out.append("    w = mkv_%d();" % k)
+        elif st["how"] == "fld":
+            out += ["    %s u%d = %s;" % (tn, k, e), "    bx.e = u%d;" % k, "    %s x%d = bx.e;" % (tn, k)]
+        else:
+            out.append("    w = mk_%d();" % k)
+        seen = "x%d" % k if st["how"] == "fld" else "w"
+        if st.get("fn"):
+            out.append("    show(%s, %d);" % (seen, k))
+        else:
+            out += ["    " + l for l in match_lines(seen, str(k))]
+    out.append('    println("after");')
+    out.append("}")
+    return "\n".join(out) + "\n"
+
+
+# ------------------------------------------------------------------ family S (several A / Q / T programs as functions of one program)
+# case: {"fam":"S","items":[A/Q/T case],"calls":[{"item":j,"a":int,"b":int,"sa":str,"sb":str,"sel":int}]}
+# a T item runs with the operands of the call, a Q item with the call's failing link; an A item takes no argument
+def s_call_fields(k):
+    return int(k.get("a", 0)), int(k.get("b", 0)), k.get("sa", "foo"), k.get("sb", "bar"), int(k.get("sel", 0))
+
+
+def line_s(c):
+    items = [to_line(it).replace("\t", "\x1d") for it in c["items"]]
+    calls = []
+    for k in c["calls"]:
+        a, b, sa, sb, sel = s_call_fields(k)
+        calls.append("%d:%d:%d:%s:%s:%d" % (k["item"], a, b, hx(sa), hx(sb), sel))
+    return "\t".join(["S", "\x1e".join(items) or "-", ",".join(calls) or "-"])
+
+
+def cb_s(c):
+    out, seen = [], set()
+    for it in c["items"]:
+        if it["fam"] == "A":
+            d = "\n".join(enum_decl(it["type"]))
+            if d and d not in seen:
+                seen.add(d)
+                out += enum_decl(it["type"])
+    if any(it["fam"] == "T" and ex_has_call(it["expr"]) for it in c["items"]):
+        out += T_HELPERS
+    for j, it in enumerate(c["items"]):
+        out.append({"A": cb_a, "Q": cb_q, "T": cb_t}[it["fam"]](it, j).rstrip("\n"))
+    out.append("void main() {")
+    for n, k in enumerate(c["calls"]):
+        it = c["items"][k["item"]]
+        a, b, sa, sb, sel = s_call_fields(k)
+        if it["fam"] == "T":
+            args = "%s, %s" % (int_lit(a), int_lit(b)) + (', "%s", "%s"' % (sa, sb) if is_sexpr(it["expr"]) else "")
+        elif it["fam"] == "Q":
+            args = str(sel)
+        else:
+            args = ""
+        out.append('    println("call", %d);' % n)
+        out.append("    item_%d(%s);" % (k["item"], args))
+    out.append('    println("done");')
+    out.append("}")
+    return "\n".join(out) + "\n"
+
+
+def s_item_at(c, k):
+    """the item of call k with the call's operands (what the model runs)"""
+    it = c["items"][k["item"]]
+    a, b, sa, sb, sel = s_call_fields(k)
+    if it["fam"] == "T":
+        return dict(it, a=a, b=b, sa=sa, sb=sb)
+    if it["fam"] == "Q":
+        return dict(it, sel=sel)
+    return it
+
+
+def s_normalise(c):
+    """user enums of different A items must not collide: the same name must mean the same declaration (a generic enum
+    instantiated with several type arguments is ONE declaration); otherwise the later item's type is renamed."""
+    decls = {}
+    items = []
+    for j, it in enumerate(c["items"]):
+        if it["fam"] == "A" and it["type"]["kind"] in ("user", "gen", "gen2"):
+            t = it["type"]
+            d = "\n".join(enum_decl(t))
+            if decls.setdefault(t["name"], d) != d:
+                t = dict(t, name="%s%d" % (t["name"], j))
+                decls[t["name"]] = "\n".join(enum_decl(t))
+                it = dict(it, type=t)
+        items.append(it)
+    return dict(c, items=items)
+
+
 # ------------------------------------------------------------------ running
 def to_line(c):
-    return {"A": line_a, "Q": line_q, "T": line_t, "M": line_m}[c["fam"]](c)
+    return {"A": line_a, "Q": line_q, "T": line_t, "M": line_m, "R": line_r, "S": line_s}[c["fam"]](c)
 
 
 def to_cb(c):
-    return {"A": cb_a, "Q": cb_q, "T": cb_t, "M": cb_m}[c["fam"]](c)
+    return {"A": cb_a, "Q": cb_q, "T": cb_t, "M": cb_m, "R": cb_r, "S": cb_s}[c["fam"]](c)
 
 
 def run_models(cases):
@@ -727,9 +971,20 @@ def label(c, m):
             labs.append("C13-empty-string-payload")
         if c["kind"] == "R" and any(len(l) > 2 and l[2] == "v" for l in c["links"]) and any(l[1][0] == "str" for l in c["links"]):
             labs.append("C13-decl-from-call-drops-string")
+    elif c["fam"] == "R":
+        vals = [st["val"] for st in c["steps"]]
+        if any(st["val"][1] == ["none"] and (st["how"] != "fld" or st.get("fn")) for st in c["steps"]):
+            labs.append("C13-payloadless-variant-lost")
+        if any(v[1] == ["str", ""] for v in vals):
+            labs.append("C13-empty-string-payload")
+    elif c["fam"] == "S":
+        for k in c["calls"]:
+            labs += label(s_item_at(c, k), None)
     else:
         if c["ctx"] in ("asg", "asgmain"):
             labs.append("C13-try-outside-return-assignment")
+        if is_sexpr(c["expr"]) and py_eval3(c["expr"], int(c["a"]), int(c["b"]), *t_strs(c))[0] == "":
+            labs.append("C13-empty-string-payload")
     return labs
 
 
@@ -1172,15 +1427,258 @@ def rand_expr(rng, d, atoms=None):
 
 
 def gen_random_t(rng, safe):
+    st = rng.random() < 0.3
     while True:
-        e = rand_expr(rng, rng.randint(1, 3))
+        e = rand_sexpr(rng, rng.randint(0, 2)) if st else rand_expr(rng, rng.randint(1, 3))
         a, b = rng.choice(AB + [(rng.randint(-20, 20), rng.randint(-3, 3))])
         v, m, err = py_eval3(e, a, b)
         if m >= 2 ** 62:
             continue
         break
-    return {"fam": "T", "checked": rng.random() < 0.5, "ctx": rng.choice(TCTX_OK if safe else TCTX_ALL),
-            "a": a, "b": b, "expr": e}
+    c = {"fam": "T", "checked": rng.random() < 0.5, "ctx": rng.choice(TCTX_OK if safe else TCTX_ALL),
+         "a": a, "b": b, "expr": e}
+    if st:
+        c["sa"], c["sb"] = rng.choice(SAFE_STR if safe else STR_POOL), rng.choice(SAFE_STR if safe else STR_POOL)
+    return c
+
+
+# ------------------------------------------------------------------ generators for the string operands of try/checked
+S_ATOMS = [["SA"], ["SB"], ["SL", "lit"], ["SI", ["A"]], ["SI", ["B"]], ["SN", ["A"]]]
+
+
+def gen_try_strings(thorough):
+    """(T2) string-valued operands (build_result_ok's is_string branch): every string atom, every concatenation `x + y` and
+    cat(x, y) over the atoms, indexing with a failing index expression; operand pairs put the index inside and outside the
+    array; the empty result (both parameters empty) is the recorded empty-string defect through a new producer."""
+    exprs = [a for a in S_ATOMS] + [["SL", ""], ["SI", ["L", 1]], ["SI", ["L", 3]], ["SN", ["B"]], ["SN", ["L", 2]],
+                                    ["SI", ["/", ["A"], ["B"]]], ["SN", ["%", ["A"], ["B"]]], ["SI", ["I", ["A"]]], ["SI", ["AT", ["B"]]],
+                                    ["SI", ["-", ["A"], ["B"]]], ["SN", ["DV", ["A"], ["B"]]]]
+    exprs += [[op, x, y] for op in ("SC", "SK") for x in S_ATOMS for y in S_ATOMS]
+    exprs += [["SC", ["SC", ["SA"], ["SL", "-"]], ["SI", ["A"]]], ["SK", ["SC", ["SA"], ["SB"]], ["SN", ["B"]]], ["SC", ["SA"], ["SK", ["SB"], ["SA"]]]]
+    strs = [("foo", "bar"), ("", ""), ("x", ""), ("", "héllo wörld"), ("0", "Ok")]
+    for ei, e in enumerate(exprs):
+        for ai, (a, b) in enumerate(AB if thorough else AB[:4]):
+            v, m, err = py_eval3(e, a, b)
+            if m >= 2 ** 62:
+                continue
+            for si, (sa, sb) in enumerate(strs if thorough else [strs[(ei + ai) % len(strs)], strs[0]][:1 + (ei + ai) % 2]):
+                for chk in (False, True):
+                    if not thorough and v is not None and chk != ((ei + ai + si) % 2 == 1):
+                        continue
+                    for ctx in (TCTX_ALL if thorough else (TCTX_ALL[(ei + ai + si) % 4],)):
+                        yield {"fam": "T", "checked": chk, "ctx": ctx, "a": a, "b": b, "sa": sa, "sb": sb, "expr": e}
+
+
+def rand_sexpr(rng, d):
+    if d == 0 or rng.random() < 0.3:
+        a = rng.choice(S_ATOMS + [["SL", rng.choice(SAFE_STR)]])
+        if a[0] in ("SI", "SN") and rng.random() < 0.5:
+            return [a[0], rand_expr(rng, max(d - 1, 0), NOD_ATOMS) if d > 0 else ["L", rng.randint(-1, 3)]]
+        return a
+    return [rng.choice(["SC", "SC", "SK"]), rand_sexpr(rng, d - 1), rand_sexpr(rng, d - 1)]
+
+
+# ------------------------------------------------------------------ generators for family R
+def r_types():
+    return [{"kind": "user", "name": "E", "variants": [["A", "int"], ["B", "string"], ["C", "long"], ["D", "none"]]},
+            {"kind": "result", "name": "Result<long, string>", "variants": [["Ok", "long"], ["Err", "string"]]},
+            {"kind": "option", "name": "Option<string>", "variants": [["Some", "string"], ["None", "none"]]},
+            {"kind": "gen", "name": "G", "targ": "string", "variants": [["Val", "T"], ["Nil", "none"]]},
+            {"kind": "gen", "name": "G", "targ": "long", "variants": [["Val", "T"], ["Nil", "none"]]},
+            {"kind": "user", "name": "Optional", "variants": [["Txt", "string"], ["Num", "int"], ["Big", "long"]]}]
+
+
+RHOWS = ["var", "call", "mkv", "mk", "fld"]
+
+
+def r_payload(t, vi, k):
+    """payload for step k: different at every position, so that a kept older value shows"""
+    kind = kind_in(t, t["variants"][vi][0])
+    if kind == "none":
+        return ["none"]
+    if kind == "string":
+        return ["str", "%s%d" % (SAFE_STR[k % len(SAFE_STR)], k)]
+    pool = INT_POOL[:6] if kind == "int" else INT_POOL
+    return ["int", str(pool[(2 * k + vi + 1) % len(pool)])]
+
+
+def gen_reassign(seed, thorough):
+    """(R1) one variable assigned again and again: every sequence of variants of length 1..3 (thorough 4) for six types
+    (payload kinds string / int / long / none in every order), the way of assignment (from a variable / through idf / from
+    a function returning a variable / returning the constructor) and the consumer (match in place / shared function) rotate
+    so that every (position, way) pair occurs; payloads differ at every position."""
+    rot = rng_for(seed, "c13-reassign").randrange(4)
+    n = 0
+    for t in r_types():
+        nv = len(t["variants"])
+        for ln in range(1, (4 if thorough else 3) + 1):
+            if nv ** ln > 300:
+                continue
+            for seq in itertools.product(range(nv), repeat=ln):
+                for off in range(5 if (ln <= 2 or thorough) else 2):
+                    n += 1
+                    steps = [{"val": [vi, r_payload(t, vi, k)], "how": RHOWS[(rot + off + k + n // 7) % 5], "fn": (n + k + off) % 3 == 0}
+                             for k, vi in enumerate(seq)]
+                    iv = (n + off) % nv
+                    yield {"fam": "R", "type": t, "init": [iv, r_payload(t, iv, 9)], "steps": steps, "arms": full_arms(t)}
+
+
+def gen_random_r(rng, safe):
+    t = rng.choice(r_types())
+    nv = len(t["variants"])
+    steps = []
+    for k in range(rng.randint(1, 7)):
+        cand = [vi for vi in range(nv) if not safe or t["variants"][vi][1] != "none"]
+        vi = rng.choice(cand)
+        steps.append({"val": [vi, pick_payload(rng, kind_in(t, t["variants"][vi][0]), True)], "how": rng.choice(RHOWS), "fn": rng.random() < 0.4})
+    iv = rng.randrange(nv)
+    arms = full_arms(t)
+    if rng.random() < 0.2:
+        arms = arms[:-1] + [["w"]]
+    if rng.random() < 0.1 and len(arms) > 1:
+        del arms[rng.randrange(len(arms))]
+    return {"fam": "R", "type": t, "init": [iv, pick_payload(rng, kind_in(t, t["variants"][iv][0]), True)], "steps": steps, "arms": arms}
+
+
+# ------------------------------------------------------------------ generators for family S
+def s_classes(rng):
+    """Item classes for the pair sweep: (tag, item, calls) - one class per (producer, payload kind, outcome). The calls are
+    the operands the item runs with; payload values are drawn per program."""
+    z = rng.choice([3, 8, 42, -7, 2147483647, 2147483648])
+    w = rng.choice(SAFE_STR)
+    big = rng.choice(INT_POOL[6:])
+    tE = {"kind": "user", "name": "E", "variants": [["A", "int"], ["B", "string"], ["C", "long"], ["D", "none"]]}
+    tRS = {"kind": "result", "name": "Result<int, string>", "variants": [["Ok", "int"], ["Err", "string"]]}
+    tRI = {"kind": "result", "name": "Result<string, int>", "variants": [["Ok", "string"], ["Err", "int"]]}
+    tOS = {"kind": "option", "name": "Option<string>", "variants": [["Some", "string"], ["None", "none"]]}
+    tOI = {"kind": "option", "name": "Option<long>", "variants": [["Some", "long"], ["None", "none"]]}
+    tGS = {"kind": "gen", "name": "G", "targ": "string", "variants": [["Val", "T"], ["Nil", "none"]]}
+    tGI = {"kind": "gen", "name": "G", "targ": "int", "variants": [["Val", "T"], ["Nil", "none"]]}
+
+    def T(chk, ctx, e):
+        return {"fam": "T", "checked": chk, "ctx": ctx, "a": 0, "b": 0, "expr": e}
+
+    def A(t, val, src="cons", steps=(), fin="var", bn=0):
+        return {"fam": "A", "type": t, "val": val, "src": src, "steps": [list(x) for x in steps], "final": fin, "arms": full_arms(t), "bn": bn, "body": 0}
+
+    def Q(kind, ek, links, ok):
+        return {"fam": "Q", "kind": kind, "ok": ["int", str(ok)], "sel": 0, "links": links, "ekind": ek}
+    ok1, ok2 = {"a": 24, "b": 3}, {"a": 1, "b": 2, "sa": w, "sb": "bar"}
+    cl = [
+        ("try-int-ok", T(False, "ret", ["/", ["A"], ["B"]]), [ok1]),
+        ("try-int-err", T(False, "decl", ["/", ["A"], ["B"]]), [{"a": 1, "b": 0}]),
+        ("checked-int-index-ok", T(True, "void", ["I", ["B"]]), [ok2]),
+        ("checked-int-call-err", T(True, "main", ["AT", ["A"]]), [{"a": 5, "b": 1}]),
+        ("checked-str-index-ok", T(True, "main", ["SI", ["A"]]), [ok2]),
+        ("checked-str-index-err", T(True, "ret", ["SI", ["A"]]), [{"a": 3, "b": 0}]),
+        ("try-str-concat-ok", T(False, "decl", ["SC", ["SA"], ["SB"]]), [ok2]),
+        ("try-str-call-ok", T(False, "ret", ["SN", ["B"]]), [ok2]),
+        ("try-str-param-ok", T(False, "void", ["SA"]), [ok2]),
+        ("try-long-ok", T(False, "main", ["*", ["A"], ["L", 1000]]), [{"a": 2147483647, "b": 1}]),
+        ("q-result-ok", Q("R", "string", [["decl", ["str", w]], ["decl", ["str", "e2"]]], z), [{"sel": 0}]),
+        ("q-result-err-string", Q("R", "string", [["ret", ["str", "e1"]], ["decl", ["str", w], "c"], ["decl", ["str", "e3"]]], 5), [{"sel": 2}]),
+        ("q-result-err-int", Q("R", "int", [["asg", ["int", "1"]], ["decl", ["int", str(z)], "v"], ["decl", ["int", "3"]]], 5), [{"sel": 2}]),
+        ("q-result-err-deep", Q("R", "string", [["bin", ["str", "e1"]], ["stmt", ["str", "e2"]], ["decl", ["str", w]]], 5), [{"sel": 3}]),
+        ("q-option-some", Q("O", "int", [["decl", ["int", "1"]], ["decl", ["int", "2"], "v"]], big), [{"sel": 0}]),
+        ("q-option-none", Q("O", "int", [["decl", ["int", "1"]], ["ret", ["int", "2"]]], 5), [{"sel": 2}]),
+        ("a-result-err-string", A(tRS, [1, ["str", w]]), [{}]),
+        ("a-result-ok-int-callvar", A(tRS, [0, ["int", str(z if abs(z) < 2 ** 31 else 9)]], src="callvar"), [{}]),
+        ("a-result-err-int-call", A(tRI, [1, ["int", "-5"]], fin="mk"), [{}]),
+        ("a-result-ok-string-param", A(tRI, [0, ["str", w]], steps=[["pa"]]), [{}]),
+        ("a-option-some-string-param", A(tOS, [0, ["str", w]], steps=[["pa"], ["dv"]], bn=1), [{}]),
+        ("a-option-none", A(tOI, [1, ["none"]], steps=[["dv"]]), [{}]),
+        ("a-option-some-long-idf", A(tOI, [0, ["int", str(big)]], steps=[["dc"]], fin="call"), [{}]),
+        ("a-user-string-mkv", A(tE, [1, ["str", w]], fin="mkv", bn=3), [{}]),
+        ("a-user-int-cons", A(tE, [0, ["int", "7"]], fin="cons", bn=2), [{}]),
+        ("a-user-long-assign", A(tE, [2, ["int", str(big)]], steps=[["av", [1, ["str", "old"]]]]), [{}]),
+        ("a-user-string-assign-call", A(tE, [1, ["str", w]], steps=[["ac", [0, ["int", "11"]]]]), [{}]),
+        ("a-user-none", A(tE, [3, ["none"]]), [{}]),
+        ("a-user-string-cons", A(tE, [1, ["str", w]], fin="cons", bn=1), [{}]),
+        ("a-user-string-mk", A(tE, [1, ["str", w]], fin="mk"), [{}]),
+        ("a-user-int-mkv", A(tE, [0, ["int", "-1"]], fin="mkv"), [{}]),
+        ("a-user-int-param", A(tE, [0, ["int", "2147483647"]], steps=[["pa"], ["pa"]]), [{}]),
+        ("a-user-string-idf", A(tE, [1, ["str", w]], steps=[["dv"]], fin="call"), [{}]),
+        ("a-generic-string-value", A(tGS, [0, ["str", w]], fin="val"), [{}]),
+        ("a-option-none-mk", A(tOS, [1, ["none"]], fin="mk"), [{}]),
+        ("a-generic-string", A(tGS, [0, ["str", w]], steps=[["pa"]]), [{}]),
+        ("a-generic-int-value", A(tGI, [0, ["int", "9"]], fin="val"), [{}]),
+        ("a-generic-nil-variant", A(tGI, [1, ["none"]], fin="obs"), [{}]),
+    ]
+    return cl
+
+
+def gen_seq_pairs(seed, thorough):
+    """(S1) every ordered pair (x, y) of item classes as ONE program: main calls x, y, x - what x leaves behind must not show
+    in y and the other way round (x = y: the same code three times with its own operands)."""
+    rounds = 3 if thorough else 1
+    for r in range(rounds):
+        base = s_classes(rng_for(seed, "c13-seq-classes", r))
+        for i, (tx, ix, cx) in enumerate(base):
+            for j, (ty, iy, cy) in enumerate(base):
+                if i == j:
+                    items, calls = [ix], [dict(cx[0], item=0)] * 3
+                else:
+                    items, calls = [ix, iy], [dict(cx[0], item=0), dict(cy[0], item=1), dict(cx[0], item=0)]
+                yield s_normalise({"fam": "S", "items": items, "calls": calls, "pair": [tx, ty]})
+
+
+def gen_seq_operands(seed):
+    """(S3) ONE try/checked site and ONE `?` chain called again and again with operands that alternate between success and
+    the different failures (the same Cb code meets Ok, Err, Ok; a string, an error, a string)."""
+    rng = rng_for(seed, "c13-seq-operands")
+    sites = [["/", ["A"], ["B"]], ["%", ["A"], ["B"]], ["I", ["A"]], ["AT", ["B"]], ["DV", ["A"], ["B"]], ["+", ["I", ["A"]], ["/", ["L", 6], ["B"]]],
+             ["SI", ["A"]], ["SN", ["B"]], ["SC", ["SA"], ["SI", ["B"]]], ["SK", ["SA"], ["SB"]], ["SC", ["SN", ["A"]], ["SB"]], ["SI", ["/", ["A"], ["B"]]]]
+    ops = [(1, 2), (7, 0), (0, 1), (5, 1), (2, 2), (-1, 3), (2, 0), (1, 1)]
+    for ei, e in enumerate(sites):
+        for ctx in TCTX_OK:
+            for chk in (False, True):
+                order = list(ops)
+                rng.shuffle(order)
+                calls = [{"item": 0, "a": a, "b": b, "sa": SAFE_STR[(ei + n) % len(SAFE_STR)], "sb": SAFE_STR[(ei + 2 * n + 1) % len(SAFE_STR)]}
+                         for n, (a, b) in enumerate(order)]
+                yield {"fam": "S", "items": [{"fam": "T", "checked": chk, "ctx": ctx, "a": 0, "b": 0, "expr": e}], "calls": calls}
+    # two sites of different payload kinds taking turns
+    for ei in range(6):
+        for ctx in TCTX_OK:
+            i1 = {"fam": "T", "checked": ei % 2 == 0, "ctx": ctx, "a": 0, "b": 0, "expr": sites[ei]}
+            i2 = {"fam": "T", "checked": ei % 2 == 1, "ctx": TCTX_OK[(TCTX_OK.index(ctx) + ei) % 4], "a": 0, "b": 0, "expr": sites[6 + ei]}
+            calls = []
+            for n, (a, b) in enumerate(ops[:6]):
+                calls.append({"item": n % 2, "a": a, "b": b, "sa": SAFE_STR[n % len(SAFE_STR)], "sb": "t%d" % n})
+            yield {"fam": "S", "items": [i1, i2], "calls": calls}
+    for kind in ("R", "O"):
+        for ek in ("string", "int"):
+            for k, ctxs in enumerate(itertools.product(["decl", "ret", "stmt"], repeat=2)):
+                pl = (lambda j: ["str", "e%d%s" % (j, SAFE_STR[(j + k) % len(SAFE_STR)])]) if ek == "string" else (lambda j: ["int", str(INT_POOL[(j + k) % len(INT_POOL)])])
+                links = [[c, pl(j), "v" if (ek == "int" or kind == "O") and (j + k) % 2 else "c"] for j, c in enumerate(list(ctxs) + ["decl"])]
+                sels = [0, 3, 1, 0, 2, 3, 0]
+                rng.shuffle(sels)
+                yield {"fam": "S", "items": [{"fam": "Q", "kind": kind, "ok": ["int", str(INT_POOL[k % len(INT_POOL)])], "sel": 0, "links": links, "ekind": ek}],
+                       "calls": [{"item": 0, "sel": x} for x in sels]}
+
+
+def gen_random_s(rng):
+    items = []
+    for _ in range(rng.randint(2, 5)):
+        f = rng.choice("AQTT")
+        it = {"A": gen_random_a, "Q": gen_random_q, "T": gen_random_t}[f](rng, True)
+        items.append(it)
+    calls = []
+    for _ in range(rng.randint(3, 9)):
+        j = rng.randrange(len(items))
+        a, b = rng.choice(AB[:6] + [(rng.randint(-20, 20), rng.randint(-3, 3))])
+        if items[j]["fam"] == "T" and py_eval3(items[j]["expr"], a, b)[1] >= 2 ** 62:
+            a, b = 7, 2
+        calls.append({"item": j, "a": a, "b": b, "sa": rng.choice(SAFE_STR), "sb": rng.choice(SAFE_STR),
+                      "sel": rng.randint(0, len(items[j]["links"]) + 1) if items[j]["fam"] == "Q" else 0})
+    return s_normalise({"fam": "S", "items": items, "calls": calls})
+
+
+def only_conforming(cases):
+    """sequence programs are drawn from the proved fragment only (the recorded defects turn payload kinds into one another,
+    which trips the binding-name defects once several matches share a program): keep the cases the model calls safe"""
+    ms = run_models(cases)
+    return [c for c, m in zip(cases, ms) if m["safe"]]
 
 
 def size(c):
@@ -1190,68 +1688,104 @@ def size(c):
         return len(c["links"]) * 2
     if c["fam"] == "M":
         return 3 * len(c["calls"]) + sum(len(f["arms"]) + (3 + len(f["nest"][1]) if f.get("nest") else 0) for f in c["fns"])
+    if c["fam"] == "R":
+        return 3 * len(c["steps"]) + len(c["arms"])
+    if c["fam"] == "S":
+        return 5 * len(c["calls"]) + sum(size(it) for it in c["items"])
     return len(ex_ser(c["expr"]))
 
 
+def shrink_cands(c):
+    cands = []
+    if c["fam"] == "A":
+        for k in range(len(c["steps"])):
+            cands.append(dict(c, steps=c["steps"][:k] + c["steps"][k + 1:]))
+        for k in range(len(c["arms"])):
+            cands.append(dict(c, arms=c["arms"][:k] + c["arms"][k + 1:]))
+        if c["src"] != "cons":
+            cands.append(dict(c, src="cons"))
+        if c.get("bn"):
+            cands.append(dict(c, bn=0))
+        if c.get("body"):
+            cands.append(dict(c, body=0))
+    elif c["fam"] == "M":
+        for k in range(len(c["calls"])):
+            cands.append(dict(c, calls=c["calls"][:k] + c["calls"][k + 1:]))
+        for j, f in enumerate(c["fns"]):
+            def with_fn(g, j=j):
+                return dict(c, fns=c["fns"][:j] + [g] + c["fns"][j + 1:])
+            if f.get("nest"):
+                cands.append(with_fn(dict(f, nest=None)))
+                for k in range(len(f["nest"][1])):
+                    cands.append(with_fn(dict(f, nest=[f["nest"][0], f["nest"][1][:k] + f["nest"][1][k + 1:]])))
+            if f["style"] != "void":
+                cands.append(with_fn(dict(f, style="void")))
+            for k in range(len(f["arms"])):
+                if f.get("nest") and f["nest"][0] >= k:
+                    continue
+                cands.append(with_fn(dict(f, arms=f["arms"][:k] + f["arms"][k + 1:])))
+        if c.get("bn"):
+            cands.append(dict(c, bn=0))
+    elif c["fam"] == "Q":
+        n = len(c["links"])
+        for k in range(n):
+            if n > 1:
+                sel = c["sel"] if c["sel"] <= k else c["sel"] - 1
+                if c["sel"] == k + 1:
+                    continue
+                cands.append(dict(c, links=c["links"][:k] + c["links"][k + 1:], sel=sel))
+        for k in range(n):
+            if c["links"][k][0] != "decl":
+                cands.append(dict(c, links=c["links"][:k] + [["decl"] + c["links"][k][1:]] + c["links"][k + 1:]))
+            if len(c["links"][k]) > 2 and c["links"][k][2] == "v":
+                cands.append(dict(c, links=c["links"][:k] + [c["links"][k][:2]] + c["links"][k + 1:]))
+    elif c["fam"] == "R":
+        for k in range(len(c["steps"])):
+            cands.append(dict(c, steps=c["steps"][:k] + c["steps"][k + 1:]))
+        for k, st in enumerate(c["steps"]):
+            if st.get("fn"):
+                cands.append(dict(c, steps=c["steps"][:k] + [dict(st, fn=False)] + c["steps"][k + 1:]))
+            if st["how"] not in ("var", "fld"):
+                cands.append(dict(c, steps=c["steps"][:k] + [dict(st, how="var")] + c["steps"][k + 1:]))
+    elif c["fam"] == "S":
+        for k in range(len(c["calls"])):
+            cands.append(dict(c, calls=c["calls"][:k] + c["calls"][k + 1:]))
+        used = sorted({k["item"] for k in c["calls"]})
+        if len(used) < len(c["items"]):          # drop the items nobody calls
+            ren = {j: n for n, j in enumerate(used)}
+            cands.append(dict(c, items=[c["items"][j] for j in used], calls=[dict(k, item=ren[k["item"]]) for k in c["calls"]]))
+        for j, it in enumerate(c["items"]):
+            if it["fam"] == "Q":                 # removing a link would renumber the failing link of every call: contexts only
+                subs = [q for q in shrink_cands(it) if len(q["links"]) == len(it["links"])]
+            else:
+                subs = shrink_cands(it)
+            for q in subs:
+                cands.append(dict(c, items=c["items"][:j] + [q] + c["items"][j + 1:]))
+    else:
+        e = c["expr"]
+        if len(e) == 3 and e[0] in OPS + ["DV", "MD"]:
+            cands += [dict(c, expr=e[1]), dict(c, expr=e[2])]
+        if e[0] == "AT":
+            cands += [dict(c, expr=["I", e[1]]), dict(c, expr=e[1])]
+        if e[0] in ("DV", "MD"):
+            cands.append(dict(c, expr=["/" if e[0] == "DV" else "%", e[1], e[2]]))
+        if e[0] == "I" and e[1][0] != "L":
+            cands.append(dict(c, expr=e[1]))
+        if e[0] in ("SC", "SK"):
+            cands += [dict(c, expr=e[1]), dict(c, expr=e[2])]
+        if e[0] == "SK":
+            cands.append(dict(c, expr=["SC", e[1], e[2]]))
+        if e[0] == "SN":
+            cands.append(dict(c, expr=["SI", e[1]]))
+    return cands
+
+
 def shrink(c, still_bad):
-    """Greedy deletion of steps / arms / links / sub-expressions keeping the disagreement."""
+    """Greedy deletion of steps / arms / links / calls / items / sub-expressions keeping the disagreement."""
     changed = True
     while changed:
         changed = False
-        cands = []
-        if c["fam"] == "A":
-            for k in range(len(c["steps"])):
-                cands.append(dict(c, steps=c["steps"][:k] + c["steps"][k + 1:]))
-            for k in range(len(c["arms"])):
-                cands.append(dict(c, arms=c["arms"][:k] + c["arms"][k + 1:]))
-            if c["src"] != "cons":
-                cands.append(dict(c, src="cons"))
-            if c.get("bn"):
-                cands.append(dict(c, bn=0))
-            if c.get("body"):
-                cands.append(dict(c, body=0))
-        elif c["fam"] == "M":
-            for k in range(len(c["calls"])):
-                cands.append(dict(c, calls=c["calls"][:k] + c["calls"][k + 1:]))
-            for j, f in enumerate(c["fns"]):
-                def with_fn(g, j=j):
-                    return dict(c, fns=c["fns"][:j] + [g] + c["fns"][j + 1:])
-                if f.get("nest"):
-                    cands.append(with_fn(dict(f, nest=None)))
-                    for k in range(len(f["nest"][1])):
-                        cands.append(with_fn(dict(f, nest=[f["nest"][0], f["nest"][1][:k] + f["nest"][1][k + 1:]])))
-                if f["style"] != "void":
-                    cands.append(with_fn(dict(f, style="void")))
-                for k in range(len(f["arms"])):
-                    if f.get("nest") and f["nest"][0] >= k:
-                        continue
-                    cands.append(with_fn(dict(f, arms=f["arms"][:k] + f["arms"][k + 1:])))
-            if c.get("bn"):
-                cands.append(dict(c, bn=0))
-        elif c["fam"] == "Q":
-            n = len(c["links"])
-            for k in range(n):
-                if n > 1:
-                    sel = c["sel"] if c["sel"] <= k else c["sel"] - 1
-                    if c["sel"] == k + 1:
-                        continue
-                    cands.append(dict(c, links=c["links"][:k] + c["links"][k + 1:], sel=sel))
-            for k in range(n):
-                if c["links"][k][0] != "decl":
-                    cands.append(dict(c, links=c["links"][:k] + [["decl"] + c["links"][k][1:]] + c["links"][k + 1:]))
-                if len(c["links"][k]) > 2 and c["links"][k][2] == "v":
-                    cands.append(dict(c, links=c["links"][:k] + [c["links"][k][:2]] + c["links"][k + 1:]))
-        else:
-            e = c["expr"]
-            if len(e) == 3 and e[0] in OPS + ["DV", "MD"]:
-                cands += [dict(c, expr=e[1]), dict(c, expr=e[2])]
-            if e[0] == "AT":
-                cands += [dict(c, expr=["I", e[1]]), dict(c, expr=e[1])]
-            if e[0] in ("DV", "MD"):
-                cands.append(dict(c, expr=["/" if e[0] == "DV" else "%", e[1], e[2]]))
-            if e[0] == "I" and e[1][0] != "L":
-                cands.append(dict(c, expr=e[1]))
-        for q in cands:
+        for q in shrink_cands(c):
             try:
                 if still_bad(q):
                     c = q
@@ -1344,6 +1878,14 @@ def build_cases(seed, thorough):
     add(gen_chains(seed, 5 if thorough else 4), "Q-chains-exhaustive")
     add(gen_chain_payloads(), "Q-payload-sweep")
     add(gen_try_exhaustive(thorough), "T-expressions-exhaustive")
+    add(gen_try_strings(thorough), "T-string-operands")
+    add(gen_reassign(seed, thorough), "R-reassign-exhaustive")
+    add(only_conforming(list(gen_seq_pairs(seed, thorough))), "S-producer-pairs")
+    add(only_conforming(list(gen_seq_operands(seed))), "S-one-site-many-operands")
+    add(only_conforming([gen_random_s(rng_for(seed, "c13-rand-s", k)) for k in range(12000 if thorough else 450)]), "random-S-safe")
+    for k in range(20000 if thorough else 300):
+        cases.append(gen_random_r(rng_for(seed, "c13-rand-r", k), k % 2 == 0))
+        origin.append("random-R-%s" % ("safe" if k % 2 == 0 else "any"))
     nr = 120000 if thorough else 1200
     for k in range(nr):
         rng = rng_for(seed, "c13-rand", k)
@@ -1408,7 +1950,7 @@ def run(rep):
         conf = conforming(m)
         n_conf += conf
         n_safe += m["safe"]
-        if first and (m["mech"]["cls"] != "ok" or any(l != "after" and not l.startswith("back") and not l.startswith("end") and l != "g1"
+        if first and (m["mech"]["cls"] != "ok" or any(l not in ("after", "done", "g1") and not l.startswith(("back", "end", "call "))
                                                       for l in m["mech"]["out"])):
             nontrivial += 1
         if m["safe"] and not conf:
@@ -1449,10 +1991,16 @@ def run(rep):
                             "operators x %d operand pairs%s; variant-name relations: every ordered pair (r, s) of %d sets of related names x 5 arm "
                             "lists, all ordered arm subsets x wildcard positions x 3 values for %s name sets; match suites: 5 styles x nested match at "
                             "no/first/second arm x 7 arm lists x 2 values over a prefix-related pair; ? operand form (call / variable) alternating "
-                            "over every link of every chain; 62 expressions with the failing operation inside a called function" % (
+                            "over every link of every chain; 62 expressions with the failing operation inside a called function; "
+                            "string-valued operands of try/checked: 6 string atoms, every `x + y` and cat(x, y) over them, failing index "
+                            "expressions; re-assignment of one variable / struct member: every variant sequence of length <= %d for 6 types "
+                            "with the way of assignment rotating over 5; sequences: every ordered pair (x, y) of 38 producer classes "
+                            "(try/checked int/string ok/err, ? chains Ok/Err-string/Err-int/None, constructors of Result/Option/user/generic "
+                            "enums through declaration, call, parameter, return) as one program calling x, y, x; one try/checked site and one "
+                            "? chain called 6-8 times with alternating outcomes" % ((
                                 5 if thorough else 4, 3 if thorough else 2, 5 if thorough else 4,
                                 len(AB) if thorough else 4, " x 6 statement contexts" if thorough else " (statement context rotating over 4)",
-                                len(NAME_SETS), "all" if thorough else "3 (seed-chosen)"),
+                                len(NAME_SETS), "all" if thorough else "3 (seed-chosen)") + (4 if thorough else 3,)),
         "input_distribution": hist, "programs": len(cases), "classify_messages": len(msgs), "classify_classes": cclasses,
         "model_conforming_to_spec": n_conf, "in_proved_fragment": n_safe,
         "nonconforming_by_known_finding": lab_hist,
